@@ -547,6 +547,9 @@ class Interp:
                 try:       # fine as long as no symbolic value has to be hashed / compared
                     return f(*args, **kw)
                 except SymbolicTruthError:
+                    if f in (set, frozenset) and len(args) == 1 and not kw and isinstance(args[0], (list, tuple)) and all(
+                            is_sym(a) or isinstance(a, (int, float)) for a in args[0]):
+                        return SymSet(list(args[0]))      # A4: a bag of terms, queried through membership / size only
                     raise OutsideSubset(f'constructor of {f.__name__} needs equality of symbolic values')
             if issubclass(f, BaseException):
                 return f(*[('<sym>' if anysym(a) else a) for a in args])
@@ -562,6 +565,10 @@ class Interp:
         mod = getattr(getattr(f, '__func__', f), '__module__', '') or ''
         if mod.split('.')[0] in ('pyvc', 'specs', 'z3', 'sympy'):
             # verification-side code (specification helpers, z3 API) is never interpreted
+            return self.native(f, args, kw)
+        if mod in ('_collections_abc', 'collections.abc') and getattr(f, '__name__', '') in ('keys', 'items', 'values'):
+            # mixin views of a Mapping defined in the repository: they only wrap the mapping; iterating them goes
+            # through its own __iter__ / __getitem__ and tests no value
             return self.native(f, args, kw)
         if inspect.isfunction(f):
             return self.call_function(f, args, kw)
